@@ -334,8 +334,7 @@ PROPS = {
     },
     "C03": {
         "modules": ["SxVerif.Props.C03"],
-        "components": ["bpf", "proc", "recv"],
-        "components": ["bpf", "proc", "e2ereply"],
+        "components": ["bpf", "proc", "recv", "e2ereply"],
         "trusted_base": [
             "modelled, not verified: libpcap's filter compiler + the BPF interpreter, as the denotation Model/Bpf.lean gives to exactly the expressions tcp.BPFFilter / tcp.SYNACKBPFFilter / icmp.BPFFilter / arp.BPFFilter can produce, on DLT_EN10MB and DLT_IPV4 (three-valued: an out-of-range load rejects; IPv6 branches of `tcp` and `src portrange`; fragment test on the offset only; /0 drops the dead address load; swapped port bounds). Validated on every run by compiling the REAL filter strings with the real libpcap for the link type sx opens and executing the program in golang.org/x/net/bpf's VM on the same frames; the harness hands the real processor the first snap-length bytes of each frame (1518 / 64, the value the program returns) as the ring would",
             "modelled, not verified: gopacket decoders and DecodingLayerParser loop (Model/Frame.lean, shared with C06), validated by component proc and again inside component bpf",
